@@ -28,11 +28,13 @@ def inits_before(fn, loop):
     return out
 
 
-def loop_shape(loop, params):
+def loop_shape(loop, params, inits=None):
     """-> (seq param name, index var or None, element var or None)"""
     it = loop.iter
     if isinstance(it, ast.Call) and isinstance(it.func, ast.Name) and it.func.id == 'range' and len(it.args) == 1:
         a = it.args[0]
+        if isinstance(a, ast.Name) and inits and a.id in inits:
+            a = inits[a.id]          # n = len(seq) hoisted before the loop
         if isinstance(a, ast.Call) and isinstance(a.func, ast.Name) and a.func.id == 'len' and isinstance(a.args[0], ast.Name) and isinstance(loop.target, ast.Name):
             return a.args[0].id, loop.target.id, None
     if isinstance(it, ast.Call) and isinstance(it.func, ast.Name) and it.func.id == 'enumerate' and isinstance(it.args[0], ast.Name) \
@@ -103,7 +105,7 @@ def hoisted_consts(fn, loop, ivar, seq):
 
 class WriterTable:
     """(in_tie, t, last) -> (token class, (prefix, suffix), in_tie')"""
-    def __init__(self, func):
+    def __init__(self, func, resolver=None):
         self.func = func
         fn = func.node
         params = [a.arg for a in fn.args.args]
@@ -111,7 +113,7 @@ class WriterTable:
             raise Unknown('tie writer takes (list, tie indicators)')
         self.listp, self.tiep = params[0], params[1]
         loop = find_loop(fn)
-        seq, ivar, evar = loop_shape(loop, params)
+        seq, ivar, evar = loop_shape(loop, params, inits_before(fn, loop))
         self.loop = loop
         if seq != self.listp:
             raise Unknown('tie writer iterates over %s, not over its list parameter %s' % (seq, self.listp))
@@ -139,8 +141,6 @@ class WriterTable:
                                 return t
                             if n.value.id == self.listp:
                                 return ('num',)
-                        if evar and isinstance(n, ast.Name) and n.id == evar:
-                            return ('num',)
                         if isinstance(n, ast.Compare):
                             for x in ast.walk(n):
                                 if isinstance(x, ast.Name) and x.id in foreign:
@@ -148,7 +148,10 @@ class WriterTable:
                             return last_test(n, ivar, seq, consts, last)
                         return NOATOM
                     fe = FiniteEval(atom, lists=self.outs)
+                    fe.resolver = resolver
                     env = {st: s}
+                    if evar:
+                        env[evar] = ('num',)
                     try:
                         fe.run(loop.body, env)
                     except Stop as e:
@@ -177,13 +180,13 @@ class WriterTable:
 
 class ReaderTable:
     """(in_tie, token decoration) -> (k_before_emit, total_inc, in_tie', problems)"""
-    def __init__(self, func, decorations):
+    def __init__(self, func, decorations, resolver=None):
         self.func = func
         fn = func.node
         params = [a.arg for a in fn.args.args]
         self.tokp = params[0]
         loop = find_loop(fn)
-        seq, ivar, evar = loop_shape(loop, params)
+        seq, ivar, evar = loop_shape(loop, params, inits_before(fn, loop))
         if seq != self.tokp:
             raise Unknown('tie reader iterates over %s, not over its token parameter' % seq)
         inits = inits_before(fn, loop)
@@ -209,11 +212,12 @@ class ReaderTable:
                 def atom(n, env, dec=dec):
                     if isinstance(n, ast.Subscript) and isinstance(n.value, ast.Name) and n.value.id == self.tokp and isinstance(n.slice, ast.Name) and n.slice.id == ivar:
                         return ('tok', dec[0], dec[1])
-                    if evar and isinstance(n, ast.Name) and n.id == evar:
-                        return ('tok', dec[0], dec[1])
                     return NOATOM
                 fe = FiniteEval(atom, counters=[self.rank], lists=self.lists)
+                fe.resolver = resolver
                 env = {self.rank: ('cnt', self.rank, 0)}
+                if evar:
+                    env[evar] = ('tok', dec[0], dec[1])      # the loop variable may be reassigned (e.g. stripped) in the body
                 if st:
                     env[st] = s
                 problems = []
